@@ -653,13 +653,19 @@ class Circuit(Function):
                     gates_for_block.add(new_label)
             else:
                 if right_connect:
-                    self._gates[old_to_new_names[cur_gate.label]] = gate.Gate(
-                        label=old_to_new_names[cur_gate.label],
-                        gate_type=cur_gate.gate_type,
-                        operands=tuple(
-                            old_to_new_names[operand] for operand in cur_gate.operands
-                        ),
+                    replaced_label = old_to_new_names[cur_gate.label]
+                    new_operands = tuple(
+                        old_to_new_names[operand] for operand in cur_gate.operands
                     )
+                    self._gates[replaced_label] = gate.Gate(
+                        label=replaced_label,
+                        gate_type=cur_gate.gate_type,
+                        operands=new_operands,
+                    )
+                    # the replaced gate was an input (no operands before), so only
+                    # new links have to be registered in the users index.
+                    for operand in new_operands:
+                        self._add_user(operand, replaced_label)
 
         self.set_outputs(
             [output for output in self._outputs if output not in this_connectors]
